@@ -109,9 +109,14 @@ fn state_params(g: &mut Sm, group: &str, radius: f64, stream: u64) -> String {
         1 => (g.range(-0.5, 0.5), edge_coord(g), g.range(0., 2. * PI)),
         _ => (g.range(-0.5, 0.5), g.range(-0.5, 0.5), g.range(0., 2. * PI)),
     };
+    // cells loaded from a file may have a side ratio above one
+    let ratio = if stream == 2 && g.chance(0.25) { *g.pick(&[1.5, 2., 3., 1.0000001]) } else { ratio };
+    let second = if g.chance(0.12) {
+        format!(" x2={} y2={} phi2={}", fmt_f(g.range(-0.5, 0.5)), fmt_f(g.range(-0.5, 0.5)), fmt_f(g.range(0., 2. * PI)))
+    } else { String::new() };
     format!(
-        "len={} ratio={} angle={} x={} y={} phi={} k={} zero={} idx={}",
-        fmt_f(len), fmt_f(ratio), fmt_f(angle), fmt_f(x), fmt_f(y), fmt_f(phi), g.below(4), g.below(2), g.below(4)
+        "len={} ratio={} angle={} x={} y={} phi={} k={} zero={} idx={}{}",
+        fmt_f(len * if second.is_empty() { 1. } else { 1.5 }), fmt_f(ratio), fmt_f(angle), fmt_f(x), fmt_f(y), fmt_f(phi), g.below(4), g.below(2), g.below(4), second
     )
 }
 
@@ -290,6 +295,17 @@ pub fn gen(focus: &str, seed: u64, count: u64) -> Vec<String> {
                 let (shape, radius) = c02_shape(&mut g);
                 let stream = g.below(3);
                 format!("kind=hard group={} shape={} {}", group, shape, state_params(&mut g, group, radius, stream))
+            }
+            "C08" if g.chance(0.85) => {
+                // chains of hot stages from the initial state of every group x shape x potential
+                let group = *g.pick(&GROUPS);
+                let lj = g.chance(0.5);
+                let shape = if lj { lj_shape(&mut g) } else { hard_shape(&mut g).0 };
+                format!(
+                    "kind={} group={} shape={} opt={}:{}:{}:{} k=1 zero=0 idx=0",
+                    if lj { "lj" } else { "hard" }, group, shape,
+                    *g.pick(&[100u64, 400, 1000]), g.below(1000), fmt_f(*g.pick(&[0., 0.1, 0.5, 2.])), 1 + g.below(5)
+                )
             }
             "C04" | "C08" | "C01" | "C10" if g.chance(0.12) => {
                 // optimised from the initial state (a clone is optimised, as the command line does)
